@@ -13,18 +13,39 @@ META = {
             "assignment (zero page on parents, fixed by adjust_zero_pages) and titles of five Unicode classes, and checks that the "
             "transcription of add_bookmark / recursive_fix_pages / outline_child / get_outlines / get_toc refines the declarative "
             "formulas Fresh (also: later allocations never reuse an outline id), Links, Carries and ReadBack; the catalog link is made "
-            "through the existing catalog or through a new catalog allocated after build_outline. Each enumerated behaviour is driven through the real API; random forests "
-            "(<= 25 bookmarks, depth <= 6, titles from the whole Unicode range) are run through lopdf, and for every run TLC judges "
-            "the projected outline objects and the get_toc() results (built, reloaded from an xref-table file, reloaded from an "
-            "xref-stream file) against the declarative layer.",
+            "through the existing catalog or through a new catalog allocated after build_outline. Three document/machine-side dimensions "
+            "are modelled with an 'as the code is' and a repaired variant each: a stack budget per walker (any depth), a named-destination "
+            "table in every legal spelling next to the forest, and object numbers at the numeric limit. Each enumerated behaviour is driven "
+            "through the real API; random forests (<= 25 bookmarks, depth <= 6, titles from the whole Unicode range), chains of 10 .. 100 000 "
+            "levels with one walker at a time on a 2 MiB stack, the destination-table spellings and documents whose max_id lies a few numbers "
+            "below u32::MAX are run through lopdf in a supervised child process, and for every run TLC judges the projected outline objects "
+            "and the get_toc() results (built, reloaded from an xref-table file, reloaded from an xref-stream file) against the declarative layer.",
     "note": "Trusted: TLC, the reading of ISO 32000-1 12.3.3/7.9.2.2 in Outline.tla (Links, TitleDenotes), the harness projection. "
             "Exhaustive only within the model bounds (<= 4 bookmarks, <= 3 pages, 5 title classes); beyond that sampled. Not judged: "
-            "/Count, /C, /F, ASCII control characters under strict PDFDocEncoding, equal titles (outside the stated domain), the empty forest.",
+            "/Count, /C, /F, ASCII control characters under strict PDFDocEncoding, equal titles (outside the stated domain), the empty forest. "
+            "A forest that needs more object numbers than are left below u32::MAX cannot be given fresh identifiers by anybody; for it the "
+            "check only demands 'an outline as specified, or no outline and an untouched document'.",
     "design_ref": "DESIGN.md section 4 C17",
 }
 
 SFX = ""
 ACTIONS = ["AddBookmark", "AdjustZeroPages", "SkipAdjust", "BuildOutline", "AddObject", "LinkCatalog", "LinkNewCatalog", "GetToc", "SaveLoad"]
+DESTS = ["none", "tree-direct", "kids-ref", "names-ref", "d-ref", "value-array-ref", "old-direct", "old-names-key", "old-refs"]
+NOROOM = 999999
+
+# design-level controls: the model "as the code is" must be refuted in each dimension, the repaired one must hold
+CONTROLS = [("MC_Outline_noreserve.cfg", "Reserved"), ("MC_Outline_stack_asis.cfg", "NoAbort"),
+            ("MC_Outline_dests_asis.cfg", "RefinesToc"), ("MC_Outline_ids_asis.cfg", "RefinesFresh")]
+REPAIRED = ["MC_Outline_stack_worklist.cfg", "MC_Outline_dests_followrefs.cfg", "MC_Outline_ids_checked.cfg"]
+
+
+# ------------------------------------------------------------------ inputs of a run (never its outcome)
+def is_chain(rec):
+    return rec.get("kind") == "chain"
+
+
+def nbook(rec):
+    return rec["n"] if is_chain(rec) else len(rec["adds"])
 
 
 def depth_of(adds):
@@ -34,22 +55,24 @@ def depth_of(adds):
     return max(lv) if lv else 0
 
 
+def depth(rec):
+    return rec["n"] if is_chain(rec) else depth_of(rec["adds"])
+
+
 def preorder(adds):
     kids = {}
     for k, a in enumerate(adds):
         kids.setdefault(a["parent"], []).append(k + 1)
-    out = []
-
-    def walk(p):
-        for k in kids.get(p, []):
-            out.append(k)
-            walk(k)
-    walk(0)
+    out, stack = [], list(reversed(kids.get(0, [])))
+    while stack:
+        k = stack.pop()
+        out.append(k)
+        stack.extend(reversed(kids.get(k, [])))
     return out
 
 
 def classes(adds):
-    """which interesting classes an add sequence belongs to (anti-vacuity and signatures)"""
+    """which interesting classes an add sequence belongs to (anti-vacuity)"""
     c = set()
     if depth_of(adds) >= 3:
         c.add("deep")
@@ -74,41 +97,6 @@ def classes(adds):
     return c
 
 
-def judge_with_tlc(path, nrecs, name, parts=1):
-    """Run Trace_Outline on the ndjson file (split into `parts` files judged concurrently);
-    returns verdict strings in record order."""
-    if nrecs == 0:
-        return [], 0, 0
-    if parts <= 1 or nrecs < 2 * parts:
-        r = tlc("Trace_Outline.tla", "Trace_Outline.cfg", workers=1, env={"TRACE": path}, deque=True, timeout=3000, name=name)
-        vs = r.tagged("VERDICT")
-        if len(vs) != nrecs:
-            raise vlib.ToolError("Trace_Outline judged %d of %d records" % (len(vs), nrecs))
-        out = [None] * nrecs
-        for v in vs:
-            out[v["i"] - 1] = v["v"]
-        return out, r.distinct, r.generated
-    lines = open(path).read().splitlines()
-    size = (len(lines) + parts - 1) // parts
-    jobs = []
-    for p in range(parts):
-        chunk = lines[p * size:(p + 1) * size]
-        if not chunk:
-            continue
-        cp = "%s.part%d" % (path, p)
-        with open(cp, "w") as f:
-            f.write("\n".join(chunk) + "\n")
-        jobs.append((cp, len(chunk), "%s-p%d" % (name, p)))
-    with ThreadPoolExecutor(max_workers=parts) as ex:
-        res = list(ex.map(lambda j: judge_with_tlc(j[0], j[1], j[2], 1), jobs))
-    out, d, g = [], 0, 0
-    for (o, dd, gg) in res:
-        out += o
-        d += dd
-        g += gg
-    return out, d, g
-
-
 def paren_nesting(cps):
     """deepest nesting of *balanced* parentheses (unbalanced ones are escaped by the writer)"""
     stack, matched = [], set()
@@ -129,55 +117,134 @@ def paren_nesting(cps):
     return best
 
 
+def max_nesting(rec):
+    return 0 if is_chain(rec) else max([paren_nesting(a["title"]) for a in rec["adds"]] + [0])
+
+
+def room(rec):
+    r = rec.get("room", -1)
+    return None if r is None or r < 0 or r == NOROOM else r
+
+
+def exhausted(rec):
+    return room(rec) is not None and 1 + 2 * nbook(rec) > room(rec)
+
+
+def case_key(rec):
+    if is_chain(rec):
+        return json.dumps(["chain", rec["n"], rec.get("zero"), rec.get("small"), rec.get("fmts")])
+    return json.dumps([rec["adds"], rec.get("post", 0), rec.get("link", "mut"), rec.get("dests", "none"), rec.get("room", -1)])
+
+
+# ------------------------------------------------------------------ TLC as the judge
+def judge_with_tlc(path, nrecs, name, parts=1, xmx="4g"):
+    """Run Trace_Outline on the ndjson file (split into `parts` files judged concurrently);
+    returns (verdict strings in record order, distinct, generated)."""
+    if nrecs == 0:
+        return [], 0, 0
+    if parts <= 1 or nrecs < 2 * parts:
+        r = tlc("Trace_Outline.tla", "Trace_Outline.cfg", workers=1, env={"TRACE": path}, deque=True, timeout=3000, name=name, xmx=xmx)
+        vs = r.tagged("VERDICT")
+        if len(vs) != nrecs:
+            raise vlib.ToolError("Trace_Outline judged %d of %d records" % (len(vs), nrecs))
+        out = [None] * nrecs
+        for v in vs:
+            out[v["i"] - 1] = v["v"]
+        return out, r.distinct, r.generated
+    lines = open(path).read().splitlines()
+    size = (len(lines) + parts - 1) // parts
+    jobs = []
+    for p in range(parts):
+        chunk = lines[p * size:(p + 1) * size]
+        if not chunk:
+            continue
+        cp = "%s.part%d" % (path, p)
+        with open(cp, "w") as f:
+            f.write("\n".join(chunk) + "\n")
+        jobs.append((cp, len(chunk), "%s-p%d" % (name, p)))
+    with ThreadPoolExecutor(max_workers=parts) as ex:
+        res = list(ex.map(lambda j: judge_with_tlc(j[0], j[1], j[2], 1, xmx), jobs))
+    out, d, g = [], 0, 0
+    for (o, dd, gg) in res:
+        out += o
+        d += dd
+        g += gg
+    return out, d, g
+
+
 def signature(verdict, rec):
-    """narrow class of the failing case"""
-    if verdict == "readback.reloaded" and any(paren_nesting(a["title"]) > 100 for a in rec["adds"]):
+    """narrow class of the failing case: the violated clause plus the class of the input"""
+    if verdict == "readback.reloaded" and max_nesting(rec) > 100:
         return "C17:readback.reloaded.paren-nesting>100"
+    if verdict == "readback.built" and rec.get("dests", "none") != "none" and rec["tocs"][0]["err"] == "ObjectType":
+        # get_toc gave up on the document's named-destination table (no bookmark uses it)
+        return "C17:readback.built.dests-" + rec["dests"]
     return "C17:" + verdict
 
 
+def panic_signature(rec):
+    p = rec["panic"]
+    phase = p.split(":")[0].replace(" ", "-")
+    if phase == "crash" and depth(rec) >= 1000:
+        # the process died (stack overflow) while the walkers named in `small` ran on the small stack
+        return "C17:crash.depth>=1000." + "+".join(sorted(rec.get("small", ["adjust", "build", "toc"])))
+    if phase == "build_outline" and "overflow" in p and exhausted(rec):
+        return "C17:panic.build_outline.ids-exhausted"
+    return "C17:panic." + phase
+
+
 def detail(rec, verdict):
-    d = {"verdict": verdict, "np": rec.get("np"), "adds": rec.get("adds"), "adjust": rec.get("adjust")}
-    for k in ("pageids", "root", "rootrec", "max_id", "base", "changed", "items", "later", "clobbered", "post", "link", "toc0", "toc1", "toc2", "fmts", "chain", "panic", "style"):
+    d = {"verdict": verdict}
+    for k in ("kind", "n", "zero", "leaf_page", "np", "adds", "adjust", "dests", "room", "stack_kb", "small", "pageids", "root", "rootrec",
+              "max_id", "base", "changed", "untouched", "items", "later", "clobbered", "post", "link", "tocs", "fmts", "chain", "panic", "style"):
         if k in rec:
-            d[k] = rec[k]
+            v = rec[k]
+            if k == "tocs" and is_chain(rec):
+                v = [{"ok": t["ok"], "err": t["err"], "n": t["n"]} for t in v]
+            if k == "adds" and len(v) > 60:
+                v = v[:60]
+            d[k] = v
     return d
 
 
-def judge_records(chk, recs, path, name, parts):
-    """panics are violations; everything else is judged by TLC.  Returns list of (rec, verdict)."""
+def judge_records(chk, recs, path, name, parts, xmx="4g"):
+    """panics / crashes / hangs are violations; everything else is judged by TLC.  Returns list of (rec, verdict)."""
     good = [r for r in recs if "panic" not in r]
     for r in recs:
         if "panic" in r:
-            phase = r["panic"].split(":")[0].replace(" ", "-")
-            if phase.startswith("harness"):
+            if r["panic"].startswith("harness"):
                 chk.deferred.append("harness failure: %s" % r["panic"])
                 continue
-            chk.case(json.dumps(r["adds"]))
-            chk.violation("C17:panic." + phase, detail(r, "panic"))
+            chk.case(case_key(r))
+            chk.violation(panic_signature(r), detail(r, "panic"))
     write_ndjson(path, good)
-    verdicts, d, g = judge_with_tlc(path, len(good), name, parts) if good else ([], 0, 0)
+    verdicts, d, g = judge_with_tlc(path, len(good), name, parts, xmx) if good else ([], 0, 0)
     chk.states += d
     chk.transitions += g
     out = []
     for r, v in zip(good, verdicts):
-        chk.case(json.dumps([r["adds"], r.get("post", 0), r.get("link", "mut")]))
+        chk.case(case_key(r))
         if v == "ok-outside-domain":     # decided by TLC from the inputs (adds, adjust) alone
-            chk.deferred.append("driver produced a forest outside the domain of C17: %s" % json.dumps(r["adds"])[:300])
+            chk.deferred.append("driver produced a forest outside the domain of C17: %s" % case_key(r)[:300])
             out.append((r, v))
             continue
         if v.startswith("ok"):
             chk.traces += 1
             if v == "ok-drift":
                 chk.extra["model_drift"] = chk.extra.get("model_drift", 0) + 1
+            if v == "ok-refused":
+                chk.extra["refused_for_lack_of_object_numbers"] = chk.extra.get("refused_for_lack_of_object_numbers", 0) + 1
         else:
             chk.violation(signature(v, r), detail(r, v))
         out.append((r, v))
     return out
 
 
+# ------------------------------------------------------------------ negative controls
 NEG = ["links.siblings", "links.parent", "links.first-last", "links.root-ends", "carries.title", "carries.dest", "fresh.overlap",
        "fresh.maxid", "fresh.reserved", "readback.built", "readback.reloaded", "readback.reloaded"]
+NEG_CHAIN = ["links.siblings", "links.parent", "links.first-last", "links.root-ends", "carries.title", "carries.dest", "fresh.overlap",
+             "fresh.maxid", "fresh.reserved", "readback.built", "readback.reloaded", "build.none"]
 
 
 def negative_controls(rec):
@@ -188,7 +255,6 @@ def negative_controls(rec):
         r = copy.deepcopy(rec)
         f(r)
         out.append(r)
-    # an item that has a next sibling / a child
     its = rec["items"]
     with_next = next(i for i, it in enumerate(its) if it["next"] != 0)
     with_child = next(i for i, it in enumerate(its) if it["first"] != 0)
@@ -201,10 +267,43 @@ def negative_controls(rec):
     mut(lambda r: r["oldids"].append(r["items"][-1]["id"]))
     mut(lambda r: r.update(max_id=r["max_id"] - 1))
     mut(lambda r: r["later"].append(r["items"][0]["id"]))
-    mut(lambda r: r["toc0"]["toc"].reverse())
-    mut(lambda r: r["toc1"]["toc"][0].__setitem__(0, r["toc1"]["toc"][0][0] + 1))
-    mut(lambda r: r["toc2"]["toc"].pop())
+    mut(lambda r: r["tocs"][0]["toc"].reverse())
+    mut(lambda r: r["tocs"][1]["toc"][0].__setitem__(0, r["tocs"][1]["toc"][0][0] + 1))
+    mut(lambda r: r["tocs"][2]["toc"].pop())
     return out
+
+
+def negative_controls_chain(rec):
+    out = []
+
+    def mut(f):
+        r = copy.deepcopy(rec)
+        f(r)
+        out.append(r)
+    n = rec["n"]
+    mut(lambda r: r["next"].__setitem__(4, r["id"][5]))
+    mut(lambda r: r["parent"].__setitem__(6, r["root"]))
+    mut(lambda r: r["first"].__setitem__(n - 1, r["id"][0]))
+    mut(lambda r: r["rootrec"].update(last=r["id"][n - 1]))
+    mut(lambda r: r["title"].__setitem__(2, r["title"][2] + [48]))
+    mut(lambda r: r["destpn"].__setitem__(3, r["destpn"][3] % r["np"] + 1))
+    mut(lambda r: r["aid"].__setitem__(1, r["id"][7]))
+    mut(lambda r: r.update(max_id=r["id"][n - 1]))
+    mut(lambda r: r["later"].append(r["aid"][2]))
+    mut(lambda r: r["tocs"][0]["lv"].__setitem__(8, 8))
+    mut(lambda r: r["tocs"][1]["pg"].__setitem__(n - 1, r["tocs"][1]["pg"][n - 1] % r["np"] + 1))
+    mut(lambda r: r.update(root=0))
+    return out
+
+
+# ------------------------------------------------------------------ the check
+def replay_fmts(c):
+    """object numbers left for saving: the xref-stream format takes one and Size one more; a table with
+    object numbers near 2^32 would have that many lines, so such documents are saved in the stream format only"""
+    if c["room"] == NOROOM:
+        return ["table", "stream"]
+    slack = c["room"] - (1 + 2 * len(c["adds"])) - c["post"] - (1 if c["link"] == "new" else 0)
+    return ["stream"] if slack >= 3 else []
 
 
 def run(tier):
@@ -213,24 +312,26 @@ def run(tier):
     was found, so that they can never mask one."""
     chk = Check("C17", META["level"], tier)
     chk.deferred = []
-    chk.rule = ("bookmark forests as add sequences (TLC-enumerated by MC_Outline and seeded random ones); every case has >= 1 "
-                "bookmark, is built, followed by 0..3 further allocations, linked (existing or new catalog), read back, saved "
-                "and reloaded in both xref formats; distinct by add sequence + allocation/link variant")
+    chk.rule = ("bookmark forests as add sequences (TLC-enumerated by MC_Outline and seeded random ones) and chains of 10..10^5 levels; "
+                "every case has >= 1 bookmark, is built, followed by 0..3 further allocations, linked (existing or new catalog), read "
+                "back, saved and reloaded; distinct by forest + allocation/link variant + destination-table spelling + room for object numbers")
     # runs against a scratch worktree (VERIF_REPO) get their own work and TLC directories
     global SFX
     SFX = "" if vlib.REPO == "/repo" else "-" + hashlib.sha1(vlib.REPO.encode()).hexdigest()[:8]
     w = workdir("c17" + SFX)
     quick = tier == "quick"
-    # ---------------- (M) + (G): model checking, generation, replay into lopdf   (independent of /repo)
-    cfgs = ["MC_Outline_quick.cfg", "MC_Outline_quick4.cfg"] if quick else ["MC_Outline_thorough.cfg"]
+    # ---------------- (M) + (G): model checking, generation   (independent of /repo)
+    cfgs = (["MC_Outline_quick.cfg", "MC_Outline_quick4.cfg"] if quick else ["MC_Outline_thorough.cfg"]) + REPAIRED
     seen, cases = set(), []
     for cfg in cfgs:
-        r = tlc("MC_Outline.tla", cfg, workers=4 if quick else 16, coverage=True, timeout=3000, xmx="4g" if quick else "8g",
+        main = cfg not in REPAIRED
+        r = tlc("MC_Outline.tla", cfg, workers=4 if quick else 16, coverage=main, timeout=3000, xmx="4g" if quick else "8g",
                 name=os.path.splitext(cfg)[0] + SFX)
-        vlib.require_coverage(r, ACTIONS)
+        if main:
+            vlib.require_coverage(r, ACTIONS)
         chk.add_tlc(r)
         for c in r.tagged("REPLAY"):
-            k = json.dumps([c["np"], c["adds"], c["adjust"], c["post"], c["link"]])
+            k = json.dumps([c["np"], c["adds"], c["adjust"], c["post"], c["link"], c["dests"], c["room"]])
             if k not in seen:
                 seen.add(k)
                 cases.append(c)
@@ -240,17 +341,30 @@ def run(tier):
     have = set()
     for c in cases:
         have |= classes(c["adds"])
-    variants = {(min(c["post"], 1), c["link"]) for c in cases}
-    if need - have or variants != {(0, "mut"), (1, "mut"), (0, "new"), (1, "new")}:
-        raise vlib.ToolError("vacuous generation: classes never generated: %s, allocation/link variants %s" % (
-            sorted(need - have), sorted(variants)))
-    # control of the model itself: without the reservation the action property Reserved must fail
-    rn = tlc("MC_Outline.tla", "MC_Outline_noreserve.cfg", workers=1, allow_violation=True, name="c17noreserve" + SFX)
-    if rn.violation != "Reserved":
-        raise vlib.ToolError("model control: Reserved not violated when build_outline does not reserve its ids (%s)" % rn.violation)
-    chk.extra["model_controls_rejected"] = 1
+    variants = {(min(c["post"], 1), c["link"]) for c in cases if not c["exp"]["refused"]}
+    gen_dests = {c["dests"] for c in cases}
+    gen_refused = sum(1 for c in cases if c["exp"]["refused"])
+    gen_tight = sum(1 for c in cases if c["room"] != NOROOM and not c["exp"]["refused"])
+    if need - have or variants != {(0, "mut"), (1, "mut"), (0, "new"), (1, "new")} or gen_dests != set(DESTS) \
+            or gen_refused == 0 or gen_tight == 0:
+        raise vlib.ToolError("vacuous generation: classes never generated: %s, allocation/link variants %s, dests %s, refused %d, tight %d" % (
+            sorted(need - have), sorted(variants), sorted(gen_dests), gen_refused, gen_tight))
+    # controls of the model itself: "as the code is" must be refuted in each dimension by the named property
+    for cfg, prop in CONTROLS:
+        rn = tlc("MC_Outline.tla", cfg, workers=1, allow_violation=True, name=os.path.splitext(cfg)[0] + SFX)
+        if rn.violation != prop:
+            raise vlib.ToolError("model control %s: expected %s to be violated, TLC said %s" % (cfg, prop, rn.violation))
+        chk.extra["model_controls_rejected"] = chk.extra.get("model_controls_rejected", 0) + 1
+    # ---------------- replay into lopdf
     cin, cout = os.path.join(w, "gen.ndjson"), os.path.join(w, "gen.out.ndjson")
-    write_ndjson(cin, [{"np": c["np"], "adds": c["adds"], "adjust": c["adjust"], "post": c["post"], "link": c["link"]} for c in cases])
+    gen = []
+    for c in cases:
+        g = {"np": c["np"], "adds": c["adds"], "adjust": c["adjust"], "post": c["post"], "link": c["link"], "dests": c["dests"],
+             "fmts": replay_fmts(c)}
+        if c["room"] != NOROOM:
+            g["room"] = c["room"]
+        gen.append(g)
+    write_ndjson(cin, gen)
     run_bin("c17", ["replay", "--in", cin, "--out", cout])
     results = read_ndjson(cout)
     if len(results) != len(cases):
@@ -262,9 +376,14 @@ def run(tier):
         if i + 1 not in by_case:
             continue
         rec, v = by_case[i + 1]
-        if not v.startswith(("ok", "readback")) or v == "ok-outside-domain":
+        if v == "ok-outside-domain" or not v.startswith(("ok", "readback")):
             continue
-        same = all(rec[t]["ok"] and rec[t]["toc"] == c["exp"]["toc"] for t in ("toc0", "toc1", "toc2"))
+        if c["exp"]["refused"] or v == "ok-refused":
+            # the model (highest usable number = limit - 1) and lopdf may differ by the one number `limit` itself
+            if c["exp"]["refused"] != (v == "ok-refused"):
+                chk.extra["model_drift"] = chk.extra.get("model_drift", 0) + 1
+            continue
+        same = all(t["ok"] and t["toc"] == c["exp"]["toc"] for t in rec["tocs"])
         if same != v.startswith("ok"):
             chk.deferred.append("replay comparison and trace verdict disagree on case %d: %s vs %s" % (i + 1, same, v))
         if v.startswith("ok"):
@@ -273,56 +392,72 @@ def run(tier):
             if [it["id"] - base for it in rec["items"]] != ids["items"] or rec["root"] - base != ids["root"] or rec["max_id"] - base != ids["max"]:
                 chk.extra["model_drift"] = chk.extra.get("model_drift", 0) + 1
     chk.extra["replayed_behaviours"] = len(cases)
-    mid = cases[len(cases) // 2]
-    chk.sample({"generated_adds": mid["adds"], "np": mid["np"], "post": mid["post"], "link": mid["link"],
-                "spec_readback": mid["exp"]["toc"], "lopdf_toc_reloaded": results[len(cases) // 2].get("toc2", {}).get("toc")})
+    mid = cases[len(cases) // 3]
+    chk.sample({"generated_adds": mid["adds"], "np": mid["np"], "post": mid["post"], "link": mid["link"], "dests": mid["dests"],
+                "spec_readback": mid["exp"].get("toc"), "lopdf_tocs": [t.get("toc") for t in results[len(cases) // 3].get("tocs", [])][-1:]})
     chk.exhaustive = True
-    # ---------------- (V): recorded random forests judged by the declarative layer
+    # ---------------- (V): recorded runs judged by the declarative layer
     n = 250 if quick else 4000
+    deep = 10000 if quick else 100000
     tr = os.path.join(w, "rec.ndjson")
-    run_bin("c17", ["record", "--seed", vlib.seed(), "--n", n, "--out", tr])
+    run_bin("c17", ["record", "--seed", vlib.seed(), "--n", n, "--deep", deep, "--out", tr], timeout=3000)
     recs = read_ndjson(tr)
-    if len(recs) != n + 4:
-        raise vlib.ToolError("recorder lost runs")
-    judged = judge_records(chk, recs, os.path.join(w, "rec.trace.ndjson"), "c17rec" + SFX, 1 if quick else 8)
-    # vacuity of the recorded set, from the chosen inputs only (every record carries its inputs, also after a panic)
+    light = [r for r in recs if depth(r) < 10000]
+    heavy = [r for r in recs if depth(r) >= 10000]
+    judged = judge_records(chk, light, os.path.join(w, "rec.trace.ndjson"), "c17rec" + SFX, 1 if quick else 8)
+    judged += judge_records(chk, heavy, os.path.join(w, "deep.trace.ndjson"), "c17deep" + SFX, 1 if quick else 3, xmx="8g")
+    # vacuity of the recorded set, from the chosen inputs only (every record carries its inputs, also after a crash)
     have, big, variants = set(), 0, set()
     for rec in recs:
-        have |= classes(rec["adds"])
-        big += len(rec["adds"]) >= 15
-        if "post" in rec:
-            variants.add((min(rec["post"], 1), rec["link"]))
-    nest = {max(paren_nesting(a["title"]) for a in rec["adds"]) for rec in recs}
-    if need - have or big == 0 or not any(depth_of(rec["adds"]) == 6 for rec in recs) or not {100, 101} <= nest:
-        chk.deferred.append("vacuous trace set: classes %s, %d forests >= 15, depth 6 reached: %s, paren nestings %s" % (
-            sorted(need - have), big, any(depth_of(rec["adds"]) == 6 for rec in recs), sorted(x for x in nest if x > 50)))
-    if all("post" in rec for rec in recs) and len(variants) != 4:
-        chk.deferred.append("vacuous trace set: allocation/link variants %s" % sorted(variants))
+        if not is_chain(rec):
+            have |= classes(rec["adds"])
+            big += len(rec["adds"]) >= 15
+        variants.add((min(rec.get("post", 0), 1), rec.get("link", "mut")))
+    nest = {max_nesting(rec) for rec in recs}
+    rnd = [rec for rec in recs if "cls" not in rec]
+    if len(rnd) != n or need - have or big == 0 or not any(depth(rec) == 6 for rec in rnd) or not {100, 101} <= nest or len(variants) != 4:
+        chk.deferred.append("vacuous trace set: %d random runs, classes %s, %d forests >= 15, depth 6 reached: %s, paren nestings %s, variants %s" % (
+            len(rnd), sorted(need - have), big, any(depth(rec) == 6 for rec in rnd), sorted(x for x in nest if x > 50), sorted(variants)))
+    want_deep = {(d, p) for d in (10, 100, 1000, 10000, 100000) if d <= deep for p in ("adjust", "build", "toc")}
+    got_deep = {(rec["n"], rec["small"][0]) for rec in recs if rec.get("cls") == "deep" and is_chain(rec) and len(rec["small"]) == 1}
+    got_dests = {rec.get("dests") for rec in recs if rec.get("cls") == "dests"}
+    rooms = [rec for rec in recs if rec.get("cls") == "ids"]
+    if want_deep - got_deep or got_dests != set(DESTS) or not any(exhausted(r) for r in rooms) \
+            or not any(room(r) == 1 + 2 * nbook(r) for r in rooms) or not any(room(r) > 1 + 2 * nbook(r) + 3 for r in rooms):
+        chk.deferred.append("vacuous trace set: chains missing %s, destination tables %s, rooms %s" % (
+            sorted(want_deep - got_deep), sorted(x for x in got_dests if x), [room(r) for r in rooms]))
     chk.extra["recorded_runs"] = len(recs)
-    chk.extra["recorded_max_bookmarks"] = max(len(rec["adds"]) for rec in recs)
+    chk.extra["recorded_max_bookmarks"] = max(nbook(rec) for rec in recs)
+    chk.extra["recorded_max_depth"] = max(depth(rec) for rec in recs)
     s = recs[0]
     if "panic" not in s:
-        chk.sample({"recorded_adds": s["adds"][:6], "lopdf_items": s["items"][:4], "later": s["later"], "lopdf_toc": s["toc0"]["toc"][:6]})
-    # ---------------- (B): negative controls (need one run that was judged ok to corrupt)
-    base = None
+        chk.sample({"recorded_adds": s["adds"][:6], "dests": s["dests"], "lopdf_items": s["items"][:4], "later": s["later"],
+                    "lopdf_toc": s["tocs"][0]["toc"][:6]})
+    # ---------------- (B): negative controls (need one run of each record format that was judged ok, to corrupt it)
+    base = cbase = None
     for rec, v in judged:
-        if v in ("ok", "ok-drift") and len(rec["adds"]) >= 4 and any(it["next"] for it in rec["items"]) \
-                and any(it["first"] for it in rec["items"]) and len(rec["oldids"]) >= 2:
+        if v not in ("ok", "ok-drift"):
+            continue
+        if is_chain(rec):
+            if cbase is None and 10 <= rec["n"] <= 1000 and len(rec["tocs"]) >= 2 and rec["np"] >= 2:
+                cbase = rec
+        elif base is None and len(rec["adds"]) >= 4 and any(it["next"] for it in rec["items"]) \
+                and any(it["first"] for it in rec["items"]) and len(rec["oldids"]) >= 2 and len(rec["tocs"]) == 3:
             base = rec
-            break
     chk.extra["negative_controls_rejected"] = 0
     chk.extra["negative_controls"] = 0
-    if base is None:
-        chk.deferred.append("no record suitable for the negative controls")
-    else:
-        negs = negative_controls(base)
-        ntr = os.path.join(w, "neg.ndjson")
+    for b, make, expect, nm in ((base, negative_controls, NEG, "c17neg"), (cbase, negative_controls_chain, NEG_CHAIN, "c17negc")):
+        if b is None:
+            chk.deferred.append("no record suitable for the negative controls (%s)" % nm)
+            continue
+        negs = make(b)
+        ntr = os.path.join(w, nm + ".ndjson")
         write_ndjson(ntr, negs)
-        nv, _, _ = judge_with_tlc(ntr, len(negs), "c17neg" + SFX)
-        chk.extra["negative_controls_rejected"] = sum(1 for v in nv if not v.startswith("ok"))
-        chk.extra["negative_controls"] = len(negs)
-        if nv != NEG:
-            chk.deferred.append("negative controls: expected %s, validator said %s" % (NEG, nv))
+        nv, _, _ = judge_with_tlc(ntr, len(negs), nm + SFX)
+        chk.extra["negative_controls_rejected"] += sum(1 for v in nv if not v.startswith("ok"))
+        chk.extra["negative_controls"] += len(negs)
+        if nv != expect:
+            chk.deferred.append("negative controls %s: expected %s, validator said %s" % (nm, expect, nv))
     rc = chk.finish()
     if rc == 0 and chk.deferred:
         raise vlib.ToolError("; ".join(chk.deferred[:3]))
